@@ -3,7 +3,7 @@
    spec: the independent JSON reader of Proofs/Json.v (unescape, lex, parse_line). *)
 From Coq Require Import List NArith Bool.
 Import ListNotations.
-From L4 Require Import Model.Json Proofs.Json Proofs.JsonStream.
+From L4 Require Import Model.Json Proofs.Json Proofs.JsonStream Proofs.JsonUtf8.
 Local Open Scope N_scope.
 
 (* Escaping is inverted exactly by a general JSON string reader, for every byte string. *)
@@ -82,6 +82,20 @@ Theorem C12_prefix_lines_parse :
   exists k, parse_all (fst (split_lines (firstn n (stream rs)))) = Some (map fields_of (firstn k rs)).
 Proof. exact prefix_lines_parse. Qed.
 Print Assumptions C12_prefix_lines_parse.
+
+(* "Arbitrary Unicode": escaping is transparent to the UTF-8 automaton (Rust's str validity: no
+   overlong forms, no surrogates, nothing above U+10FFFF) from EVERY state - it never splits, drops
+   or damages a multi-byte character - so text is well-formed UTF-8 exactly when its escaped form is,
+   and the line of a record whose strings are well-formed UTF-8 is well-formed UTF-8. *)
+Theorem C12_escaping_is_transparent_to_utf8 :
+  forall (s : bytes) (st : ust), urun st (escape s) = urun st s.
+Proof. exact urun_escape. Qed.
+Print Assumptions C12_escaping_is_transparent_to_utf8.
+
+Theorem C12_line_is_utf8 :
+  forall r : record, record_utf8 r -> utf8 (encode_record r).
+Proof. exact line_is_utf8. Qed.
+Print Assumptions C12_line_is_utf8.
 
 (* Non-vacuity: a record whose message is  a QUOTE b BACKSLASH c LF 0x01 DEL  with a quote
    in an MDC key, absent module/file, line 7, unnamed thread. *)
